@@ -84,7 +84,7 @@ type Query { again: Int } interface I2 implements I3 { a: Int } interface I3 imp
     # random documents over the schema
     fields = ["id", "name", "f", "b", "e", "zz", "list { id }", "a { id }", "a(x: $a) { name }", "u { __typename }",
               "many(a0: 1)", "n: id", "n: name", "...F", "...G", "... on Other { o }", "... @d { id }", "id @d @nod"]
-    for i in range(40 if quick else 600):
+    for i in range(120 if quick else 600):
         nv = rng.randint(0, 8)
         vs = ", ".join(f"${letters[j]}: {rng.choice(['Int', 'In', 'E', 'Zz', '[Int!]'])}" for j in range(nv))
         body = " ".join(rng.choice(fields) for _ in range(rng.randint(1, 8)))
@@ -112,7 +112,7 @@ def smith_cases(rng, quick):
         dists.append((f"ascending-{n}", bytes(i % 256 for i in range(n))))
         dists.append((f"small-alphabet-{n}", bytes(rng.choice(b"\x00\x01\x02\x7f\x80\xff") for _ in range(n))))
         dists.append((f"pattern-{n}", (b"\x13\x37\xc0\xde\x00\xff" * (n // 6 + 1))[:n]))
-    for i in range(10 if quick else 200):
+    for i in range(30 if quick else 200):
         dists.append((f"random-{i}", bytes(rng.randrange(256) for _ in range(rng.choice([200, 1000, 5000])))))
     for label, b in dists:
         out.append((f"new-{label}", "new", b, None, False))
